@@ -386,6 +386,9 @@ class DescriptorTransaction(_TransactionBase):
                 if tr_item.new is None:
                     msg = f'State deleted? That should not be possible! handle = {descriptor_container.Handle}'
                     raise ValueError(msg)
+                # the state must refer to the descriptor object that is (or will be) stored in the mdib,
+                # not to a copy that only lived in the transaction (write_entity works on copies).
+                tr_item.new.descriptor_container = descriptor_container
                 tr_item.new.update_descriptor_version()
             else:
                 old_state = self._mdib.states.descriptor_handle.get_one(
